@@ -68,18 +68,21 @@ func encDouble(r *rand.Rand, p string) (string, bool) {
 				b.WriteRune(c)
 			}
 		case '\n':
-			if r.Intn(2) == 0 {
+			switch r.Intn(3) {
+			case 0:
 				b.WriteString("\\n")
-			} else {
+			case 1:
+				b.WriteString("\\\n") // \<char> with char = a raw line feed
+			default:
 				b.WriteRune(c)
 			}
-		case 'q', 'x', '(', '#', ';', '|', '\'':
-			// \<char> is the character itself
-			if r.Intn(6) == 0 {
+		case 's', 't', 'r', 'n':
+			b.WriteRune(c) // a backslash in front of these would change their meaning
+		default:
+			// \<char> is the character itself, whatever the character
+			if r.Intn(8) == 0 {
 				b.WriteByte('\\')
 			}
-			b.WriteRune(c)
-		default:
 			b.WriteRune(c)
 		}
 	}
